@@ -19,7 +19,9 @@ VARIANTS = {
                 "-O1 -g -fsanitize=memory -fsanitize-memory-track-origins -fno-omit-frame-pointer", "-fsanitize=memory", "-DGMSIM_MSAN -DGMSIM_THREADS"),
 }
 WRAPS = ["send", "recv", "usleep", "time", "getentropy", "close", "socket", "connect", "gethostbyname",
-         "ctime", "asctime", "localtime", "gmtime", "strtok", "rand", "srand"]      # nonreent.c
+         "ctime", "asctime", "localtime", "gmtime", "strtok", "rand", "srand",      # nonreent.c
+         "signal", "sigaction", "setenv", "unsetenv", "putenv", "setlocale", "umask", "chdir",
+         "sm2_sign_finish"]                                                         # creds.c: junk-signature prover
 
 # harness sources; files listed in NOSAN are compiled without sanitizer flags in every variant
 SOURCES = ["core.c", "baton.c", "wraps.c", "nonreent.c", "net.c", "plan.c", "creds.c", "tlsnode.c", "mon.c",
